@@ -323,6 +323,71 @@ def n4(led, rid, ctx):
     led.floor(rid, "dispatcher rows", rows, 6)
 
 
+def n4b(led, rid, ctx):
+    """DynamicBrancher registration: every subscribed event of a child maps to the child's index"""
+    lib = ctx.lib
+    for name in ("new", "add_brancher"):
+        f = lib.method("DynamicBrancher", name)
+        n = 0
+        for g in f.with_closures():
+            R = resolver(g)
+            for c in g.calls:
+                if c.name != "push" or not c.args:
+                    continue
+                e = R.operand(c.args[0])
+                if "relevant_event_to_index" not in e.fields() and \
+                        not any("relevant_event_to_index" in (x.b[0].fields() if x.b else []) for x in e.walk() if x.k == "call"):
+                    # inside the closure of new() the map is a captured local
+                    if not any(x.name in ("index_mut",) for x in e.calls()):
+                        continue
+                    tys = " ".join(c.term.get("arg_tys", []))
+                    if "Vec<usize>" not in tys:
+                        continue
+                n += 1
+                cond = [fa for fa in guards_of(g, c.bb) if fa.kind == "bool" and
+                        peel(fa.atom, calls=None).k == "call" and peel(fa.atom, calls=None).a.name == "contains"]
+                led.check(not cond, rid, "DynamicBrancher::%s:index-registered-for-every-event" % name, c.span,
+                          "the child's index is recorded for each of its events unconditionally",
+                          "DynamicBrancher::%s records the child's index only when the event is new to the "
+                          "dispatcher: a child that shares an event with an earlier child never receives "
+                          "it" % name)
+        led.check(n >= 1, rid, "DynamicBrancher::%s:registers" % name, f.span, "",
+                  "DynamicBrancher::%s no longer records which child subscribed to which event" % name)
+
+
+def n9(led, rid, ctx):
+    """a hook of a (non-wrapping) selector that restores state does so on every path"""
+    lib = ctx.lib
+    n = 0
+    for t in TRAITS:
+        for imp in impls(lib, t):
+            if children(lib, imp):
+                continue
+            own = {it["name"]: lib.fns.get(it["def"]) for it in imp["items"] if it["kind"] == "fn"}
+            w = (imp["self_adt"] or "?").rsplit("::", 1)[-1]
+            for m in EVENT_OF:
+                f = own.get(m)
+                if f is None or not has_effect(f):
+                    continue
+                eff = set()
+                for b in f.blocks:
+                    if b.get("cleanup"):
+                        continue
+                    for s in b["stmts"]:
+                        if s["s"] == "assign" and s["dst"]["proj"] and s["dst"]["local"] == 1:
+                            eff.add(b["id"])
+                    t_ = b["term"]
+                    if t_["t"] == "call" and t_.get("arg_tys") and t_["arg_tys"][0].startswith("&mut "):
+                        eff.add(b["id"])
+                cfg = f.cfg
+                n += 1
+                ok = all(not cfg.reaches(0, [r], avoid=eff, strict=False) for r in cfg.returns)
+                led.check(ok, rid, "%s::%s" % (w, m), f.span, "restores its state on every path",
+                          "%s::%s has a path that returns without updating the selector's state: "
+                          "variables unfixed by that backtrack are never offered again" % (w, m))
+    led.floor(rid, "restoring hooks", n, 2)
+
+
 def writes_own_state(f, child_fields):
     """does f write a field of self other than through a child?"""
     for b in f.blocks:
@@ -542,17 +607,59 @@ def n7(led, rid, ctx):
 
 # ---- N8: value selectors ---------------------------------------------------------------------
 
-# (selector, predicate constructor, rendered bound) -> arithmetic reason it is undecided
+# (selector, predicate constructor) -> (pattern the bound must have, arithmetic reason it is
+# undecided).  The pattern is part of the entry: a different formula needs a new argument.
 N8_TABLE = {
     ("InDomainSplit", "upper_bound_predicate"):
-        "bound = lb + floor((ub−lb)/2) < ub whenever ub > lb",
+        ("lb+floor(size/2)", "bound = lb + floor((ub−lb)/2) < ub whenever ub > lb"),
     ("ReverseInDomainSplit", "lower_bound_predicate"):
-        "bound = lb + ceil((ub−lb)/2) > lb whenever ub > lb",
+        ("lb+ceil(size/2)", "bound = lb + ceil((ub−lb)/2) > lb whenever ub > lb"),
     ("InDomainInterval", "upper_bound_predicate"):
-        "the hole is searched in lb+1..ub, so hole−1 ∈ [lb, ub)",
+        ("hole-1", "the hole is searched in lb+1..ub, so hole−1 ∈ [lb, ub)"),
     ("InDomainSplitRandom", "upper_bound_predicate"):
-        "bound = lb + floor((ub−lb)/2) < ub whenever ub > lb (and = lb on the early-return branch)",
+        ("lb+floor(size/2)", "bound = lb + floor((ub−lb)/2) < ub whenever ub > lb (and = lb on the "
+                             "early-return branch)"),
 }
+
+
+def matches_pattern(f, c, pattern):
+    R = resolver(f)
+    var = root_local(f, c.args[0])
+    e = peel(R.operand(c.args[1]), calls=None, casts=False)
+
+    def bound_call(x, which):
+        x = peel(x, calls=None, casts=False)
+        return x.k == "call" and x.a.name == which and len(x.a.args) >= 2 and root_local(f, x.a.args[1]) == var
+    if pattern in ("lb+floor(size/2)", "lb+ceil(size/2)"):
+        rnd = "floor" if "floor" in pattern else "ceil"
+        if not (e.k == "binop" and e.a == "Add" and bound_call(e.b, "lower_bound")):
+            return False
+        h = peel(e.c, calls=None, casts=True)
+        if not (h.k == "call" and h.a.name == rnd and h.b):
+            return False
+        d = peel(h.b[0], calls=None, casts=False)
+        if not (d.k == "binop" and d.a == "Div"):
+            return False
+        num = peel(d.b, calls=None, casts=True)
+        den = peel(d.c, calls=None, casts=False)
+        return bound_call(num, "get_size_of_domain") and den.k == "const" and str(den.c) in ("2", "2.0")
+    if pattern == "hole-1":
+        if not (e.k == "binop" and e.a == "Sub" and e.c.k == "const" and e.c.a == 1):
+            return False
+        src = e.b
+        finds = [x for x in src.calls() if x.name == "find"]
+        if len(finds) != 1:
+            return False
+        rng = R.operand(finds[0].args[0])
+        # Range { start: lb + 1, end: ub }
+        for x in rng.walk():
+            if x.k == "agg" and x.b == "Range" and len(x.c) == 2:
+                lo = peel(x.c[0], calls=None, casts=False)
+                hi = peel(x.c[1], calls=None, casts=False)
+                return (lo.k == "binop" and lo.a == "Add" and bound_call(lo.b, "lower_bound") and
+                        lo.c.k == "const" and lo.c.a == 1 and bound_call(hi, "upper_bound"))
+        return False
+    return False
 
 
 def bound_shape(f, c, kind):
@@ -656,7 +763,9 @@ def n8(led, rid, ctx):
                     continue
                 sh = bound_shape(g, c, c.name)
                 if sh is None and (gname, c.name) in N8_TABLE:
-                    sh = "f:table — " + N8_TABLE[(gname, c.name)]
+                    pat, why = N8_TABLE[(gname, c.name)]
+                    if matches_pattern(g, c, pat):
+                        sh = "f:table %s — %s" % (pat, why)
                 led.check(sh is not None, rid, key, c.span, sh,
                           "%s proposes [x %s bound] with bound = %s, which is none of the shapes known "
                           "to be undecided on an unfixed variable (bound read directly, bound ± "
@@ -679,6 +788,10 @@ def run(ctx, led):
     run_rule(led, "N4", "OVERRIDE⇒DECLARE: a hook that changes its implementor's own state is declared "
              "in subscribe_to_events; wrappers chain every child's declaration; the dynamic brancher "
              "dispatches each hook through its own tag", n4, ctx)
+    run_rule(led, "N4b", "the dynamic brancher records a child's index for every event the child "
+             "subscribes to (new and add_brancher agree)", n4b, ctx)
+    run_rule(led, "N9", "a selector's restoring hook updates its state on every path (no early "
+             "return)", n9, ctx)
     run_rule(led, "N5", "the autonomous search consults its backup exactly when it has no candidate "
              "and some variable is unassigned; the dynamic brancher gives up only after every child", n5, ctx)
     run_rule(led, "N6", "TieBreaker::select resets on every path", n6, ctx)
